@@ -18,7 +18,7 @@
 
 use digest::{Output, OutputSizeUser};
 use hkdf::{Hkdf, HkdfExtract, HmacImpl, InvalidLength, InvalidPrkLength};
-use hpke::verif_model::{InternHash, LinHash, LIN_K, LIN_SEED};
+use hpke::verif_model::{InternHash, LinHash, ScriptHash, LIN_K, LIN_SEED};
 
 /// What the stub layer needs from a model hash: an incremental HMAC whose state is small enough to
 /// live inside the (opaque) hkdf objects.
@@ -228,7 +228,7 @@ where
     H: OutputSizeUser + FastHmac,
     I: HmacImpl<H>,
 {
-    let zeros = [0u8; 64];
+    let zeros = [0u8; 72];
     let st = match salt {
         Some(s) => H::begin(s),
         None => H::begin(&zeros[..<H as OutputSizeUser>::output_size()]), // HashLen zeros
@@ -254,7 +254,7 @@ where
     let nh = <H as OutputSizeUser>::output_size();
     let st: H::St = get(&this);
     core::mem::forget(this);
-    let mut prk = [0u8; 64];
+    let mut prk = [0u8; 72];
     H::finish(&st, &mut prk[..nh]);
     // the expander: an HMAC started with PRK as key
     (out_from::<H>(&prk), put(H::begin(&prk[..nh])))
@@ -282,7 +282,7 @@ where
     }
     let keyed: H::St = get(this);
     let l = okm.len();
-    let mut t = [0u8; 64];
+    let mut t = [0u8; 72];
     let mut tlen = 0usize;
     let mut done = 0usize;
     let mut counter: u8 = 1;
@@ -312,4 +312,69 @@ where
 /// always false in this design (kept so that harnesses can assert the stub layer was used as intended)
 pub fn arena_overflowed() -> bool {
     false
+}
+
+// ---------------------------------------------------------------------------------------------
+// ScriptHash instantiation: HMAC is an arbitrary function - every HMAC output is taken from a
+// harness-filled queue and the (key length, message) it was asked for is logged.
+// ---------------------------------------------------------------------------------------------
+pub const SC_MSG_CAP: usize = 48;
+pub const SC_CALLS: usize = 4;
+
+#[derive(Clone, Copy)]
+#[repr(C)]
+pub struct ScriptSt {
+    pub key_len: u8,
+    pub msg_len: u8,
+    pub overflow: bool,
+    pub msg: [u8; SC_MSG_CAP],
+}
+pub struct ScriptLog {
+    pub calls: usize,
+    pub out: [[u8; 66]; SC_CALLS],
+    pub seen: [ScriptSt; SC_CALLS],
+    pub overflow: bool,
+}
+const SC_EMPTY: ScriptSt = ScriptSt { key_len: 0, msg_len: 0, overflow: false, msg: [0; SC_MSG_CAP] };
+pub static mut SCRIPT: ScriptLog = ScriptLog { calls: 0, out: [[0u8; 66]; SC_CALLS], seen: [SC_EMPTY; SC_CALLS], overflow: false };
+pub fn script() -> &'static mut ScriptLog {
+    unsafe { &mut *core::ptr::addr_of_mut!(SCRIPT) }
+}
+
+impl FastHmac for ScriptHash {
+    type St = ScriptSt;
+    fn begin(key: &[u8]) -> ScriptSt {
+        let mut st = SC_EMPTY;
+        st.key_len = key.len() as u8;
+        st
+    }
+    fn absorb(st: &mut ScriptSt, data: &[u8]) {
+        let mut i = 0;
+        while i < data.len() {
+            if (st.msg_len as usize) < SC_MSG_CAP {
+                st.msg[st.msg_len as usize] = data[i];
+                st.msg_len += 1;
+            } else {
+                st.overflow = true;
+            }
+            i += 1;
+        }
+    }
+    fn finish(st: &ScriptSt, out: &mut [u8]) {
+        let s = script();
+        if st.overflow || s.calls >= SC_CALLS {
+            s.overflow = true;
+            return;
+        }
+        s.seen[s.calls] = *st;
+        let o = s.out[s.calls];
+        let mut i = 0;
+        while i < 66 {
+            if i < out.len() {
+                out[i] = o[i];
+            }
+            i += 1;
+        }
+        s.calls += 1;
+    }
 }
